@@ -612,3 +612,126 @@ pub fn rr_to_impl(rr: &WRR) -> Option<t::ResourceRecord> {
         ttl: rr.ttl,
     })
 }
+
+// --------------------------------------------------------------------------
+// pointer audit of an encoding produced by someone else
+
+/// Walks `bytes` along the structure of `m` (the message that was encoded)
+/// and checks every compression pointer: its target is below 16384, lies
+/// before the name being written, and is an offset at which an identical
+/// name (suffix) was written in-line earlier.  Returns the number of
+/// pointers seen.
+pub fn audit_pointers(bytes: &[u8], m: &WMsg) -> Result<usize, String> {
+    use std::collections::HashMap;
+    let mut written: HashMap<usize, Vec<Vec<u8>>> = HashMap::new();
+    let mut pointers = 0usize;
+    let mut pos = 12usize;
+
+    fn walk(
+        bytes: &[u8],
+        pos: &mut usize,
+        expect: &N,
+        written: &mut std::collections::HashMap<usize, Vec<Vec<u8>>>,
+        pointers: &mut usize,
+    ) -> Result<(), String> {
+        let labels: Vec<Vec<u8>> = expect.lower().0;
+        let start = *pos;
+        let mut i = 0usize;
+        let mut fresh: Vec<(usize, Vec<Vec<u8>>)> = Vec::new();
+        loop {
+            let l = *bytes.get(*pos).ok_or("audit: ran off the end")?;
+            if l == 0 {
+                *pos += 1;
+                if i != labels.len() {
+                    return Err(format!("audit: name at {start} ends early"));
+                }
+                break;
+            } else if l <= 63 {
+                let s = bytes.get(*pos + 1..*pos + 1 + l as usize).ok_or("audit: short label")?;
+                if i >= labels.len() || s.to_ascii_lowercase() != labels[i] {
+                    return Err(format!("audit: label {i} of name at {start} differs"));
+                }
+                fresh.push((*pos, labels[i..].to_vec()));
+                *pos += 1 + l as usize;
+                i += 1;
+            } else if l >= 192 {
+                let lo = *bytes.get(*pos + 1).ok_or("audit: short pointer")?;
+                let target = (usize::from(l & 63) << 8) | usize::from(lo);
+                *pointers += 1;
+                if target >= start {
+                    return Err(format!("audit: pointer at {} targets {target}, not before the name at {start}", *pos));
+                }
+                match written.get(&target) {
+                    Some(suffix) if suffix[..] == labels[i..] => {}
+                    Some(suffix) => {
+                        return Err(format!(
+                            "audit: pointer at {} targets offset {target} where {:?} was written, expected {:?}",
+                            *pos,
+                            N(suffix.clone()).to_string(),
+                            N(labels[i..].to_vec()).to_string()
+                        ))
+                    }
+                    None => {
+                        return Err(format!(
+                            "audit: pointer at {} targets offset {target} where no name was written",
+                            *pos
+                        ))
+                    }
+                }
+                *pos += 2;
+                break;
+            } else {
+                return Err(format!("audit: reserved label type at {}", *pos));
+            }
+        }
+        for (off, suffix) in fresh {
+            written.entry(off).or_insert(suffix);
+        }
+        Ok(())
+    }
+
+    for q in &m.questions {
+        walk(bytes, &mut pos, &q.name, &mut written, &mut pointers)?;
+        pos += 4;
+    }
+    for sec in [&m.answers, &m.authority, &m.additional] {
+        for rr in sec {
+            walk(bytes, &mut pos, &rr.name, &mut written, &mut pointers)?;
+            pos += 8;
+            let rdlen = u16::from_be_bytes([
+                *bytes.get(pos).ok_or("audit: short")?,
+                *bytes.get(pos + 1).ok_or("audit: short")?,
+            ]) as usize;
+            pos += 2;
+            let end = pos + rdlen;
+            match &rr.data {
+                WData::Name(n) => walk(bytes, &mut pos, n, &mut written, &mut pointers)?,
+                WData::Soa { mname, rname, .. } => {
+                    walk(bytes, &mut pos, mname, &mut written, &mut pointers)?;
+                    walk(bytes, &mut pos, rname, &mut written, &mut pointers)?;
+                }
+                WData::Minfo(a, b) => {
+                    walk(bytes, &mut pos, a, &mut written, &mut pointers)?;
+                    walk(bytes, &mut pos, b, &mut written, &mut pointers)?;
+                }
+                WData::Mx(_, n) => {
+                    pos += 2;
+                    walk(bytes, &mut pos, n, &mut written, &mut pointers)?;
+                }
+                WData::Srv(_, _, _, n) => {
+                    pos += 6;
+                    walk(bytes, &mut pos, n, &mut written, &mut pointers)?;
+                }
+                _ => {}
+            }
+            if pos > end {
+                return Err(format!("audit: RDATA overruns RDLENGTH at {pos}"));
+            }
+            pos = end;
+        }
+    }
+    if pos != bytes.len() {
+        return Err(format!("audit: {} trailing bytes", bytes.len() as i64 - pos as i64));
+    }
+    Ok(pointers)
+}
